@@ -169,7 +169,7 @@ def main(tier, seed):
             ("iteration", scenarios.iteration_scenarios(r2, nsc)), ("capture", scenarios.capture_scenarios()[::4] + scenarios.capture_order_scenarios()),
             ("switchcontexts", scenarios.fiber_switch_context_scenarios()), ("handlerintact", scenarios.handler_intact_scenarios()),
             ("loopstate", scenarios.loop_state_scenarios()), ("rangecache", scenarios.range_cache_scenarios()),
-            ("thrownvalues", scenarios.thrown_value_scenarios()), ("fiberlifetimes", scenarios.fiber_lifetime_scenarios()), ("snippets", scenarios.snippet_scenarios(r2, nsc // 2))]
+            ("retention", scenarios.closure_retention_scenarios()), ("thrownvalues", scenarios.thrown_value_scenarios()), ("fiberlifetimes", scenarios.fiber_lifetime_scenarios()), ("snippets", scenarios.snippet_scenarios(r2, nsc // 2))]
     nsc_cmp = 0
     for name, progs in fams:
         nsc_cmp += profcheck.run_scenarios(rep, name, progs, [("release", rel), ("dev", dev)], PROP, trace=False)
